@@ -1,6 +1,6 @@
 import FlytModel.Generated.IR
 import FlytModel.Expected.IR
-/-! The translation of `CustomNode_Exec` from the CURRENT source is, term for term, the IR the refinement theorems are about. -/
+/-! The translation of `CustomNode_Exec` from the CURRENT source is, term for term, the expected IR. -/
 namespace Flyt.Tie
 theorem CustomNode_Exec : Flyt.Generated.IR.CustomNode_Exec = Flyt.Expected.IR.CustomNode_Exec := rfl
 end Flyt.Tie
